@@ -1,3 +1,3 @@
+-- Root of the `SafeNet` library. Property modules (`SafeNet.Props.Cxx`) and drivers are built by name.
 import SafeNet.Base.Dec
-import SafeNet.Proofs.Dec
-import SafeNet.Model.Amount
+import SafeNet.Driver.Util
